@@ -20,13 +20,16 @@ ID = "C08"
 LEVEL = "exploration"
 N_QUICK, N_THOROUGH = 8000, 300000
 T_QUICK, T_THOROUGH = 70, 1500
-OPS = ["construct", "bind-existing", "bind-value", "bind-foreign", "bind-null", "write-through-ref",
-       "write-through-original", "grow"]
+OPS = ["construct", "construct-empty", "construct-union", "copy-holder", "bind-existing", "bind-value", "bind-foreign", "bind-null",
+       "write-through-ref", "write-through-original", "grow"]
 FLOORS = {"histories": 1500, "steps": 20000, "slot_resolutions": 100000, "growths": 1000, "alias_checks": 20000,
-          "null_checks": 20000, "raw_null_union_checks": 3000, "live_extent_checks": 30000}
+          "null_checks": 20000, "raw_null_union_checks": 3000, "live_extent_checks": 30000,
+          "empty_nd_reference_arrays": 300, "copy_same_buffer": 300, "copy_other_buffer": 300, "toplevel_union_get": 3000}
 FLOORS.update({"op:" + o: 800 for o in OPS})
 RULE = ("generated reference-bearing types (Ref and UnionRef as struct fields and as array items, referents that hold "
-        "references themselves) in two buffers; histories of <=25 steps over {construct, bind-to-existing, "
+        "references themselves, 1-3 dimensional arrays of references in any axis order created without values) in two "
+        "buffers; histories of <=25 steps over {construct, construct-empty, copy of a holder into the same / the other "
+        "buffer (same referents / duplicated referents), bind-to-existing, "
         "bind-to-value, bind-to-foreign-object, bind-to-null, write-through-ref, write-through-original, "
         "allocate-until-growth}; after EVERY step each object is re-read against the graph model and each slot is "
         "resolved: alias => same offset/buffer and writes visible both ways; value/foreign => fresh extent inside a "
@@ -82,7 +85,19 @@ def gen_types(rng, tg):
             holders.append(pool[4][1])
         else:
             holders.append(pool[5][1])
-    return dict(P=P, Q=Q, R=R, U=U), holders
+    # arrays of references of 1-3 dimensions, created without values (every slot must then be null)
+    def nd_dims():
+        nd = rng.choice([1, 2, 2, 3])
+        dims = [rng.choice([None, 2, 3]) for _ in range(nd)]
+        order = list(range(nd))
+        if rng.random() < 0.5:
+            rng.shuffle(order)
+        return dims, order
+    d1, o1 = nd_dims()
+    d2, o2 = nd_dims()
+    E1 = {"k": "ar", "n": tg.name("E"), "it": {"k": "ref", "to": rng.choice([P, Q])}, "dims": d1, "ord": o1}
+    E2 = {"k": "ar", "n": tg.name("E"), "it": U, "dims": d2, "ord": o2}
+    return dict(P=P, Q=Q, R=R, U=U, E1=E1, E2=E2), holders
 
 
 class Graph:
@@ -162,7 +177,7 @@ class Graph:
             for path, kind, detail, sig in cm.errs[:2]:
                 self.viol(f"reread:{kind}|{sig}", f"object #{o.i} ({o.t['n']}) {path}: {detail}")
             try:
-                ext[o.i] = (int(o.h._offset), int(o.h._offset) + int(o.h._get_size()))
+                ext[o.i] = (int(o.h._offset), int(o.h._offset) + (16 if o.t["k"] == "ur" else int(o.h._get_size())))
             except Exception as e:
                 self.viol(f"size-{exc_kind(e)}", f"object #{o.i}: {e}")
         if self.bad:
@@ -174,7 +189,13 @@ class Graph:
             for path, label, nt, nv in self.slots(o):
                 w.count("slot_resolutions")
                 try:
-                    got = get_path(o.h, path) if path else None
+                    if path:
+                        got = get_path(o.h, path)
+                    elif o.t["k"] == "ur":
+                        got = o.h.get()  # a top-level union reference object
+                        w.count("toplevel_union_get")
+                    else:
+                        got = None
                 except Exception as e:
                     self.viol(f"resolve-{exc_kind(e)}", f"#{o.i}{label}: {type(e).__name__}: {e}")
                     continue
@@ -302,6 +323,99 @@ def _step(G, op, rng, vg, tt, holders, holders_live, fresh):
         env = envA if rng.random() < 0.7 else envB
         o = _new_object(G, t, rng, vg, env, fresh)
         G.hist.append(["construct", t["n"], f"#{o.i}", "A" if env is envA else "B"])
+        return True
+    if op == "construct-empty":
+        t = rng.choice([tt["E1"], tt["E2"]])
+        env = envA if rng.random() < 0.7 else envB
+        shape = [d if d is not None else rng.randint(1, 3) for d in t["dims"]]
+        pv = AVal(shape, {idx: None for idx in np.ndindex(*shape)})
+        n0 = G.n
+        o = G.new(t, pv, env)
+        dyn = [sh for sh, d in zip(shape, t["dims"]) if d is None]
+        o.h = build(t, G.cache)(*dyn, _buffer=env.buf)
+        fresh.extend(range(n0 + 1, G.n + 1))
+        G.w.count("empty_reference_slots", int(np.prod(shape)))
+        if len(shape) > 1:
+            G.w.count("empty_nd_reference_arrays")
+        G.hist.append([op, t["n"], shape, t["ord"], f"#{o.i}", "A" if env is envA else "B"])
+        return True
+    if op == "construct-union":
+        # a union reference as an object of its own: U() / U(None) / U(obj in the same buffer) / U(name, data) /
+        # U(obj of another buffer); read with .get()
+        U = tt["U"]
+        env = envA if rng.random() < 0.7 else envB
+        ucls = build(U, G.cache)
+        mi = rng.randrange(len(U["m"]))
+        mt = U["m"][mi]
+        form = rng.choice(["null", "existing", "value", "foreign"])
+        n0 = G.n
+        if form == "existing":
+            cand = [x for x in G.objs.values() if x.h is not None and x.env is env and x.t is mt]
+            if not cand:
+                form = "value"
+        if form == "null":
+            G.n += 1
+            o = GObj(G.n, U, None, None, env)
+            G.objs[o.i] = o
+            o.h = ucls(_buffer=env.buf) if rng.random() < 0.5 else ucls(None, _buffer=env.buf)
+        elif form == "existing":
+            tgt = rng.choice(cand)
+            G.n += 1
+            o = GObj(G.n, U, (mi, Oid(tgt.i)), None, env)
+            G.objs[o.i] = o
+            o.h = ucls(tgt.h, _buffer=env.buf)
+        else:
+            if form == "value":
+                pv = vg.value(mt)
+                args = (mt["n"], plain(mt, pv, rng))
+            else:
+                other = envB if env is envA else envA
+                src = _new_object(G, mt, rng, vg, other, [])
+                n0 = G.n
+                pv = G.materialize(mt, src.mv)
+                args = (src.h,)
+            G.n += 1
+            o = GObj(G.n, U, None, None, env)
+            G.objs[o.i] = o
+            new = G.new(mt, pv, env)
+            o.mv = (mi, Oid(new.i))
+            o.h = ucls(*args, _buffer=env.buf)
+            new.h = o.h.get()
+            if new.h is None:
+                G.viol("construct-union-reads-None", f"{form}")
+                return True
+            G.attach(new)
+        fresh.extend(range(n0 + 1, G.n + 1))
+        G.w.count("toplevel_unions:" + form)
+        G.hist.append([op, form, mt["n"], f"#{o.i}", "A" if env is envA else "B"])
+        return True
+    if op == "copy-holder":
+        if not holders_live:
+            return False
+        src = rng.choice(holders_live)
+        if src.t["k"] == "ur":
+            return False  # U(u) takes its argument as a *member* object; a union object is not copy-constructible
+        same = rng.random() < 0.5
+        env = src.env if same else (envB if src.env is envA else envA)
+        if env.ctx is not src.env.ctx and env.kind != src.env.kind:
+            pass  # different contexts may use different buffer kinds
+        cls = build(src.t, G.cache)
+        n0 = G.n
+        if same:
+            # the copy's references denote the very same referents
+            G.n += 1
+            o = GObj(G.n, src.t, src.mv, None, env)
+            G.objs[o.i] = o
+            o.h = cls(src.h, _buffer=env.buf)
+            fresh.append(o.i)
+        else:
+            # every referent is duplicated into the copy's buffer
+            o = G.new(src.t, G.materialize(src.t, src.mv), env)
+            o.h = cls(src.h, _buffer=env.buf)
+            G.attach(o)
+            fresh.extend(range(n0 + 1, G.n + 1))
+        G.w.count("copy_same_buffer" if same else "copy_other_buffer")
+        G.hist.append([op, f"#{src.i} -> #{o.i}", "same buffer" if same else "other buffer"])
         return True
     if op == "grow":
         env = envA if rng.random() < 0.7 else envB
